@@ -18,3 +18,7 @@ mod stdwrap;
 mod nv;
 #[cfg(kani)]
 mod vars;
+#[cfg(kani)]
+mod cgi;
+#[cfg(kani)]
+mod response;
